@@ -94,9 +94,17 @@ package owa
 //@   property C03 C20
 //@   panics_iff [count_mismatch] len(alternative.Criteria) != len(*weights)
 
+// owa expects the weights already in ascending order (its only caller, OWA, sorts a copy first)
 //@ func owa
 //@   property C03
+//@   requires [weights_ascending] forall i int, j int :: 0 <= i && i < j && j < len(*sortedWeights) ==> (*sortedWeights)[i].Weight <= (*sortedWeights)[j].Weight
 //@   ensures [single_value] result != nil && typeis(result.Evaluation, model.EvaluationSingleValue) && result.Alternative == *alternative
+//@   returnhint [ascending_weights_times_ascending_values] model.val(*result) == zipsum(*sortedWeights, *sortedAlternativeCriteriaWeights, len(*sortedWeights))
+//@             && forall i int, j int :: 0 <= i && i < j && j < len(*sortedAlternativeCriteriaWeights) ==> (*sortedAlternativeCriteriaWeights)[i] <= (*sortedAlternativeCriteriaWeights)[j]
 //@ func OWA
 //@   property C03
 //@   ensures [single_value] result != nil && typeis(result.Evaluation, model.EvaluationSingleValue) && result.Alternative == alternative
+//@ func (*OWAPreferenceFunc).Evaluate$1
+//@   property C03
+//@   requires weights.Weights != nil
+//@   ensures [is_owa] result != nil && typeis(result.Evaluation, model.EvaluationSingleValue) && result.Alternative == *alternative
